@@ -40,6 +40,8 @@ def cases(tier, seed):
     for vk in vks:
         for rows in rowsets:
             for obj in objs:
+                if obj == "exp" and any(k.startswith("big") for k in vk):
+                    continue  # exp(1e6) is not finite: outside "all finite data"
                 for si in scs:
                     out.append({"n": len(vk), "vk": vk, "rows": [list(r) for r in rows], "obj": obj, "si": si})
     # non-default activity tolerances (0 is a supported value: only points exactly on a bound are active)
